@@ -141,8 +141,8 @@ class Explorer(object):
 
 def bounded_prefixes(depth):
     """bounded-exhaustive short prefixes over a small alphabet of ops that touch the indexing logic"""
-    alpha = ["pset 0 l[+]=x", "pset 0 l[0+]=y", "pset 0 l[3]=z", "pdel 0 l[0]", "pdel 0 l[1]", "pset 0 l#", "pcount 0 l",
-             "dalloc 0 0", "dresize 0 0 1 2 1", "dresize 0 1 2 2 3", "dsetfz0v 0 0 0 1", "dresize 0 0 0 0 0", "dsetallz0 0 1 0", "daddf 0 1e9", "dfree 0"]
+    alpha = ["pset 0 l[+]=x", "pset 0 l[0+]=y", "pset 0 l[3]=z", "pdel 0 l[0]", "pset 0 l#",
+             "dalloc 0 0", "dresize 0 1 2 2 3", "dsetfz0v 0 0 0 1", "dresize 0 0 0 0 0", "daddf 0 1e9"]
     for seq in itertools.product(alpha, repeat=depth):
         yield list(seq)
 
